@@ -347,19 +347,6 @@ def run_all(cases, procs=14):
     return flat
 
 
-def reflection():
-    """lists obtained from the imported library (never from a hand-written list)"""
-    t = Lb.T()
-    TD, Base = t["TD"], t["Base"]
-    allattrs = sorted(n for n in dir(TD) if '"' not in n)
-    props = [n for n in allattrs if isinstance(inspect.getattr_static(Base, n, None), property) or isinstance(inspect.getattr_static(TD, n, None), property)]
-    noncallable = [n for n in allattrs if n not in props and not callable(getattr(TD, n, None))]
-    return {"td_public": Lb.public_names(), "td_all": allattrs, "td_properties": props, "td_noncallable": noncallable,
-            "td_own_classmethods": [a for a in TD.__dict__ if inspect.ismethod(getattr(TD, a))],
-            "td_api_dunders": [d for d in Lb.api_dunders() if d not in Lb.NOT_OPERATORS],
-            "td_handled_runtime": torchfn_names(), "object_attrs": sorted(dir(object))}
-
-
 def main(R):
     import warnings
     warnings.filterwarnings("ignore")
@@ -389,7 +376,7 @@ def main(R):
                                  "torch_functions_registered": len(info["torch_td"]) + len(info["torch_lazy"])}
     except translate.TranslateError as e:
         R.broken.append(f"translator c15_tables: {e}")
-    tr_c15.write_reflection(reflection())
+    tr_c15.write_reflection(tr_c15.reflection())
     R.step_prove()
     ok = R.step_driver()
     t0 = time.time()
